@@ -37,9 +37,10 @@ def run(chk):
     base = os.path.realpath(tempfile.mkdtemp(prefix='ombverif-c16-'))
     core._scratch.append(base)
     b = os.path.join(base, 'b')
-    for d in ('b/root/sub', 'b/rootx', 'b/root/sub/..a', 'b/root-old', 'b/root.bak'):
+    for d in ('b/root/sub', 'b/rootx', 'b/root/sub/..a', 'b/root-old', 'b/root.bak', 'b/ROOT', 'b/Root/sub', 'b2/root/sub', 'B/root'):
         os.makedirs(os.path.join(base, d))
-    files = ['b/root/in', 'b/root/sub/deep', 'b/rootx/sib', 'b/top', 'b/root/sub/..a/x', 'b/root-old/o', 'b/root.bak/k', 'b/rootsecret', 'secret']
+    files = ['b/root/in', 'b/root/sub/deep', 'b/rootx/sib', 'b/top', 'b/root/sub/..a/x', 'b/root-old/o', 'b/root.bak/k', 'b/rootsecret', 'secret',
+             'b/ROOT/in', 'b/ROOT/caps', 'b/Root/sub/deep', 'b2/root/only2', 'b2/root/sub/deep', 'B/root/in']
     for f in files:
         with open(os.path.join(base, f), 'w') as fh:
             fh.write(f)
@@ -48,11 +49,11 @@ def run(chk):
         sys.addaudithook(_audit)
         _hooked[0] = True
     os.chdir(b)
-    file_segs = [f.split('/') for f in files if f.startswith('b/')]
+    file_segs = [f.split('/') for f in files if f.startswith(('b/', 'b2/', 'B/'))]
     roots = [('b/root', os.path.join(b, 'root')), ('b/root/', os.path.join(b, 'root') + '/'), ('b/root/.', os.path.join(b, 'root', '.')),
              ('b/rootx/../root', os.path.join(b, 'rootx', '..', 'root')), ('rel root', 'root'), ('rel ./root/', './root/'),
              ('b/root//', os.path.join(b, 'root') + '//')]
-    segs = ['in', 'sub', 'deep', '.', '..', '', 'rootx', 'sib', 'top', 'root', '..a', 'x', 'rootsecret', 'root-old', 'o', 'root.bak', 'k',
+    segs = ['in', 'sub', 'deep', '.', '..', '', 'rootx', 'sib', 'top', 'root', '..a', 'x', 'rootsecret', 'root-old', 'o', 'root.bak', 'k', 'ROOT', 'Root', 'caps', 'only2', 'B',
             '..\\..', '..\\rootx', 'secret', b.lstrip('/'), base.lstrip('/')]
     seps = ['/', '\\', '//']
     leads = ['', '/', '../', '/..//', '\\', '..\\']
@@ -63,18 +64,29 @@ def run(chk):
             names.append(ss)
     if not thorough:
         names = [n for n in names if len(n) <= 2] + rng.sample([n for n in names if len(n) == 3], 1500)
+    # every decoy beside/above the root reached by the shortest dot-dot route, always tried (with every root spelling below)
+    curated = [('..', 'ROOT', 'caps'), ('..', 'ROOT', 'in'), ('..', 'Root', 'sub', 'deep'), ('..', '..', 'B', 'root', 'in'), ('sub', '..', '..', 'ROOT', 'caps'),
+               ('..', 'rootx', 'sib'), ('..', 'root-old', 'o'), ('..', 'root.bak', 'k'), ('..', 'rootsecret'), ('..', 'top'), ('..', '..', 'secret'),
+               ('..', '..', 'b2', 'root', 'only2'), ('sub', '..', '..', 'top'), ('.', '..', 'rootx', 'sib'), ('', '..', 'top')]
+    names = [c for c in curated for _ in range(len(roots))] + names
     for ss in names:
         for sep in (seps if thorough else [rng.choice(seps)]):
             for lead in (leads if thorough and len(ss) < 3 else [rng.choice(leads)]):
                 rname, root = rng.choice(roots) if not thorough else roots[len(recs) % len(roots)]
                 name = lead + sep.join(ss)
+                # relative roots are resolved against the CURRENT directory of each call: move between two trees that both have ./root
+                if not os.path.isabs(root):
+                    cwd = rng.choice([b, os.path.join(base, 'b2')])
+                    os.chdir(cwd)
+                else:
+                    cwd = b
                 del _opened[:]
                 status, headers, chunks, errs = sl.serve(name, root)
                 opened = list(_opened)
                 # segment view for the model (POSIX: only '/' separates; strip('/\\') first)
                 stripped = name.strip('/\\')
                 root_abs = os.path.abspath(root)
-                recs.append({'kind': 'path', 'rootSegs': [s for s in (root if os.path.isabs(root) else os.path.join(b, root)).split('/')][1:],
+                recs.append({'kind': 'path', 'rootSegs': [s for s in (root if os.path.isabs(root) else os.path.join(cwd, root)).split('/')][1:],
                              'nameSegs': stripped.split('/'), 'files': [base.split('/')[1:] + f for f in file_segs],
                              'status': status, 'rootNorm': s2l(root_abs), 'opened': [s2l(p) for p in opened], 'name': name, 'root': root})
                 chk.count(1, ('path', name, rname))
